@@ -95,8 +95,13 @@ func c02ChallengeCase(size int, chunk int64) mc.Case {
 // (2) window arithmetic: one proof per window at every placement, whole-application blocks
 var c02WinFile = mkFile(seqBytes(12, 21), 4)
 
-func c02WindowCase(I, W, s, j int64, windows int) mc.Case {
+// repost (only with j == s): after the prover joined, the owner posts the same file again in the same block (same key),
+// which replaces the file; the honest prover then simply joins again at its next proving height.
+func c02WindowCase(I, W, s, j int64, windows int, repost bool) mc.Case {
 	c := mc.Case{Desc: fmt.Sprintf("window|I=%d|W=%d|start=%d|join=%d", I, W, s, j)}
+	if repost {
+		c.Desc += "|repost"
+	}
 	f := c02WinFile
 	c.Prep = func(env world.Env) {
 		w := env.W()
@@ -116,6 +121,9 @@ func c02WindowCase(I, W, s, j int64, windows int) mc.Case {
 		item, hl := f.proofFor(0)
 		if ok, e := postProofOK(w, env.Deliver(storagetypes.NewMsgPostProof(h, f.merkle, u, s, item, hl, 0))); !ok {
 			panic("join proof rejected: " + e)
+		}
+		if repost {
+			mustOK(env.Deliver(storagetypes.NewMsgPostFile(u, f.merkle, int64(len(f.data)), 0, 0, 1, "{}")), "PostFile again")
 		}
 	}
 	// every placement vector (o_1..o_k), o_i in [0, I)
@@ -146,6 +154,12 @@ func c02WindowCase(I, W, s, j int64, windows int) mc.Case {
 		}
 		last := s + int64(len(offs)+2)*I - 1 // through the window after the last proven one
 		burn0, _ := burnOf(w, env.Ctx(), "H")
+		joined := true // the prover holds a seat it must keep
+		if repost {
+			if file, found := getFile(w, env.Ctx(), f.merkle, u, s); !found || !proverListed(file, h) {
+				joined = false // the replacement dropped the seat (not a reward block): the prover joins again with its next proof
+			}
+		}
 		for env.Ctx().BlockHeight() < last {
 			if bp := env.NextBlock(6 * time.Second); bp != nil {
 				cr.Viols = append(cr.Viols, viol("no-panic", "block-panic", "%s", bp.Value))
@@ -153,7 +167,11 @@ func c02WindowCase(I, W, s, j int64, windows int) mc.Case {
 			}
 			ht := env.Ctx().BlockHeight()
 			file, found := getFile(w, env.Ctx(), f.merkle, u, s)
-			if !found || !proverListed(file, h) {
+			if !found && !joined {
+				cr.Class = "file-expired-before-rejoin"
+				return cr
+			}
+			if joined && (!found || !proverListed(file, h)) {
 				cr.Class = "dropped"
 				cr.Viols = append(cr.Viols, viol("honest-prover-never-removed", "removed", "proof window %d, check window %d, file start %d, joined at %d, proofs at offsets %s: removed by the block at height %d (h mod W = %d, (h-start) mod I = %d)", I, W, s, j, sub, ht, ht%W, (ht-s)%I))
 				return cr
@@ -163,7 +181,8 @@ func c02WindowCase(I, W, s, j int64, windows int) mc.Case {
 				return cr
 			}
 			if proveAt[ht] {
-				pr, _ := w.App.StorageKeeper.GetProof(env.Ctx(), h, f.merkle, u, s)
+				pr, _ := w.App.StorageKeeper.GetProof(env.Ctx(), h, f.merkle, u, s) // no record: the join challenge, chunk 0
+				joined = true
 				item, hl := f.proofFor(int(pr.ChunkToProve))
 				if ok, e := postProofOK(w, env.Deliver(storagetypes.NewMsgPostProof(h, f.merkle, u, s, item, hl, pr.ChunkToProve))); !ok {
 					cr.Viols = append(cr.Viols, viol("honest-proof-accepted", "rejected-in-window", "height %d: %s", ht, e))
@@ -194,7 +213,10 @@ func c02Enum(thorough bool) mc.Enum {
 		for _, W := range []int64{2, 3, 4, 5, 7} {
 			for s := int64(2); s < 2+W; s++ {
 				for j := s; j < s+I; j++ {
-					e.Cases = append(e.Cases, c02WindowCase(I, W, s, j, windows))
+					e.Cases = append(e.Cases, c02WindowCase(I, W, s, j, windows, false))
+					if j == s {
+						e.Cases = append(e.Cases, c02WindowCase(I, W, s, j, windows, true))
+					}
 				}
 			}
 		}
